@@ -115,4 +115,33 @@ mod vk_slice {
         assert!(std::ptr::eq(it.as_slice().as_ptr(), a.as_ptr()) && it.counter().current() == 0, "[C19 ctor-slice] into_con_iter of a slice iterates the slice in place from position 0");
         assert!(a == copy, "[C19 unmodified] the collection is unmodified and usable afterwards");
     }
+
+    // the same operations seen at the level of the std atomics (every atomic operation on the counter is logged, whatever
+    // AtomicCounter method -- existing or new -- performed it)
+    // @harness name=slice_ops_std props=C01,C04,C05,C06,C09,C10,C11 kind=bounded bound="length <= 3; chunk size and every value read symbolic over the full usize domain"
+    #[kani::proof]
+    #[kani::unwind(18)]
+    #[kani::stub(std::sync::atomic::Atomic::<usize>::fetch_add, a_faa)]
+    #[kani::stub(std::sync::atomic::Atomic::<usize>::fetch_sub, a_fsub)]
+    #[kani::stub(std::sync::atomic::Atomic::<usize>::swap, a_swap)]
+    #[kani::stub(std::sync::atomic::Atomic::<usize>::load, a_load)]
+    #[kani::stub(std::sync::atomic::Atomic::<usize>::store, a_store)]
+    fn slice_ops_std() {
+        let data: [u8; 3] = kani::any();
+        let len: usize = kani::any();
+        kani::assume(len <= 3);
+        let it = ConIterOfSlice::new(&data[..len]);
+        st().loc_r = it.counter() as *const AtomicCounter as usize;
+        let op: u8 = kani::any();
+        kani::assume(op < 6);
+        let n: usize = kani::any();
+        kani::cover!(op == 2, "buffered pull");
+        kani::cover!(op == 3, "skip");
+        if op == 0 { let _ = it.next_id_and_value().map(|x| x.idx); chk_std_ops(0, 1, len); }
+        else if op == 1 { let _ = it.next_chunk(n).map(|c| c.begin_idx); chk_std_ops(0, n, len); }
+        else if op == 2 { kani::assume(n > 0); { let mut b = it.buffered_iter(n); let _ = b.next().map(|c| c.begin_idx); }; chk_std_ops(0, n, len); }
+        else if op == 3 { it.skip_to_end(); chk_std_ops(2, 0, len); }
+        else if op == 4 { let _ = it.try_get_len(); let _ = it.has_more(); chk_std_ops(1, 0, len); }
+        else { let s = it.into_seq_iter(); chk_std_ops(1, 0, len); std::mem::forget(s); }
+    }
 }
